@@ -48,8 +48,17 @@ func Parse(raw *Raw) ([]*Converter, error) {
 
 	ctx := &context{Loader: loader, EnumTransformers: raw.EnumTransformers, WorkDir: raw.WorkDir}
 
+	// parse in a fixed order so that the reported error does not depend on the order of the package patterns
+	rawConverters := append([]RawConverter{}, raw.Converters...)
+	sort.SliceStable(rawConverters, func(i, j int) bool {
+		if rawConverters[i].InterfaceName != rawConverters[j].InterfaceName {
+			return rawConverters[i].InterfaceName < rawConverters[j].InterfaceName
+		}
+		return rawConverters[i].PackagePath < rawConverters[j].PackagePath
+	})
+
 	converters := []*Converter{}
-	for _, rawConverter := range raw.Converters {
+	for _, rawConverter := range rawConverters {
 		converter, err := parseConverter(ctx, &rawConverter, raw.Global)
 		if err != nil {
 			return nil, err
